@@ -196,6 +196,9 @@ weights_case_st = st.fixed_dictionaries(dict(
     ef=st.lists(ef_item_st, min_size=1, max_size=8),
     der=st.sampled_from([0, 0, 0, 1, 2, 3]),
     accurate=st.sampled_from([True, True, False]),
+    # the order in which the Fermi levels are handed over ("all Fermi-level arrays": not only ascending ones)
+    eforder=st.sampled_from(["asc", "asc", "desc", "shuffle"]),
+    efseed=st.integers(0, 2 ** 16),
 ))
 
 
@@ -214,20 +217,34 @@ def check_weights(case):
     perm = case["c"]["perm"]
     given = [es[i] for i in perm]
     efs = fermi_values(case["ef"], es)
-    efarr = np.array(efs, dtype=float)
+    eford = case.get("eforder", "asc")
+    order = np.arange(len(efs))
+    if eford == "desc":
+        order = order[::-1].copy()
+    elif eford == "shuffle":
+        order = np.random.default_rng(case.get("efseed", 0)).permutation(len(efs))
+    efarr = np.array(efs, dtype=float)[order]     # the array as handed to the code; results are mapped back below
     der = case["der"]
     acc = case["accurate"]
     kw = dict(der=der) if acc else dict(der=der, accurate=False)  # accurate omitted = the call made by TetraWeights
-    w = weights_tetra(efarr.copy(), given[0], given[1], given[2], given[3], **kw)
-    w = np.array(w, dtype=float)
-    if w.shape != efarr.shape:
-        raise Violation("shape", f"{w.shape} != {efarr.shape}")
+    w_given = weights_tetra(efarr.copy(), given[0], given[1], given[2], given[3], **kw)
+    w_given = np.array(w_given, dtype=float)
+    if w_given.shape != efarr.shape:
+        raise Violation("shape", f"{w_given.shape} != {efarr.shape}")
+    w = np.empty_like(w_given)
+    w[order] = w_given          # w[i] belongs to the i-th smallest Fermi level efs[i]
+    # each Fermi level is treated on its own: the same values in ascending order give the same weights
+    if eford != "asc":
+        w_asc = np.array(weights_tetra(np.array(efs, dtype=float), given[0], given[1], given[2], given[3], **kw), dtype=float)
+        if not np.array_equal(w_asc, w, equal_nan=True):
+            raise Violation("fermi-level-order", f"corners={given} der={der} accurate={acc}: levels {efarr.tolist()} give "
+                                                 f"{w_given.tolist()}, the same levels ascending give {w_asc.tolist()}")
     desc = f"corners={given} ef={efs} der={der} accurate={acc}"
     # --- bitwise independence of the corner order (the code sorts first: same arithmetic on same numbers)
     for p in itertools.permutations(range(4)):
         g2 = [es[i] for i in p]
         w2 = weights_tetra(efarr.copy(), g2[0], g2[1], g2[2], g2[3], **kw)
-        if not np.array_equal(np.asarray(w2), w, equal_nan=True):
+        if not np.array_equal(np.asarray(w2), w_given, equal_nan=True):
             raise Violation("corner-order", f"{desc}: order {g2} gives {np.asarray(w2).tolist()} instead of {w.tolist()}")
     eF = [Fraction(x) for x in es]
     delta, lifted = lift_delta(eF)
@@ -515,6 +532,19 @@ def check_groups(case):
     tw = TetraWeights(eCenter=centre.copy(), eCorners=corners.copy())
     res = tw.weights_all_band_groups(ef, der=der, degen_thresh=thresh, degen_Kramers=kram)
     res2 = tw.weights_all_band_groups(ef, der=der, degen_thresh=thresh, degen_Kramers=kram)  # cached path
+    # a second, DIFFERENT Fermi grid with the same length and end points requested from the same object (two
+    # calculators of one run() share the weights object) must get its own weights: compare with a fresh object
+    if len(ef) >= 3:
+        ef_b = ef.copy()
+        ef_b[1:-1] = ef[1:-1] + 0.37 * case["efstep"] * np.where(np.arange(len(ef) - 2) % 2 == 0, 1.0, -0.6)
+        res_b = tw.weights_all_band_groups(ef_b, der=der, degen_thresh=thresh, degen_Kramers=kram)
+        fresh = TetraWeights(eCenter=centre.copy(), eCorners=corners.copy()).weights_all_band_groups(
+            ef_b, der=der, degen_thresh=thresh, degen_Kramers=kram)
+        for ik in range(nk):
+            if sorted(res_b[ik].keys()) != sorted(fresh[ik].keys()) or any(
+                    not np.array_equal(np.asarray(res_b[ik][k]), np.asarray(fresh[ik][k])) for k in fresh[ik]):
+                raise Violation("groups-second-grid", f"weights for a second Fermi grid {ef_b.tolist()} (after {ef.tolist()}) "
+                                                      f"differ from those of a fresh object; der={der}")
     if len(res) != nk:
         raise Violation("groups-nk", f"{len(res)} != {nk}")
     desc = f"centre={centre.tolist()} corners={corners.tolist()} ef={ef.tolist()} der={der} thresh={thresh} kramers={kram}"
